@@ -4,6 +4,8 @@
 //            checkerboards, diagonal stripes) on generated quad/tria/hexa/tetra meshes
 //   parti  : Geometry::Parti2Lvl and Geometry::PartiIterative outputs
 //   files  : meshes of /repo/data/meshes: partitions stored in the files (PartitionSet) and random assignments
+//   multilevel : two-level partitions (children of extracted patches): extract_patch(elements, ...), PatchMeshPartSplitter
+//            and PatchHaloSplitter re-used over all halos / mesh parts / patches of a parent patch (c12_multi.hpp)
 // see c12_feat.hpp for the monitors.
 #include <common/vh.hpp>
 #include <dirent.h>
@@ -13,6 +15,7 @@
 
 #define C12_DECL(n) void c12_random_##n(vh::Ctx&); void c12_parti_##n(vh::Ctx&); void c12_file_##n(vh::Ctx&, const std::string&, const std::vector<std::string>&, std::size_t);
 C12_DECL(quad) C12_DECL(tria) C12_DECL(hexa) C12_DECL(tetra)
+void c12_multi_quad(vh::Ctx&); void c12_multi_tria(vh::Ctx&); void c12_multi_hexa(vh::Ctx&); void c12_multi_tetra(vh::Ctx&);
 
 namespace
 {
@@ -53,6 +56,11 @@ VH_FAMILY(random)
 VH_FAMILY(parti)
 {
   switch(c.k % 4) { case 0: c12_parti_quad(c); break; case 1: c12_parti_tria(c); break; case 2: c12_parti_hexa(c); break; default: c12_parti_tetra(c); break; }
+}
+// recursive (two-level) partitioning: children of extracted patches, see c12_multi.hpp
+VH_FAMILY(multilevel)
+{
+  switch(c.k % 4) { case 0: c12_multi_quad(c); break; case 1: c12_multi_hexa(c); break; case 2: c12_multi_tria(c); break; default: c12_multi_tetra(c); break; }
 }
 VH_FAMILY(files)
 {
